@@ -1,6 +1,9 @@
 #[cfg(tablegen_lsp_verif)]
 #[allow(unused_imports)]
 use crate::verif_hooks::std_shim as std;
+#[cfg(tablegen_lsp_verif)]
+#[allow(unused_imports)]
+use crate::verif_hooks::tokio_shim as tokio;
 use std::collections::HashSet;
 use std::ops::ControlFlow;
 #[cfg(not(tablegen_lsp_verif))]
